@@ -14,7 +14,7 @@ func defaultOptions() Options {
 	return Options{
 		Solver: "z3-new", Solver2: "z3", TimeoutMs: 20000,
 		Workers: runtime.NumCPU(), MaxSteps: 3_000_000, Merge: true, MergeStrings: true,
-		MaxViolations: 1,
+		MaxViolations: 1, ConfirmEvery: 8,
 	}
 }
 
@@ -43,6 +43,7 @@ func (e *Engine) summary() string {
 		e.entry.Name(), s.Paths, s.PathsOK, s.AssumeFalse, s.Infeasible, s.Budget, s.Unsupported)
 	fmt.Fprintf(&sb, "  forks=%d pruned=%d feas-queries=%d obligations=%d discharged=%d inconclusive=%d concrete-asserts=%d merges=%d merge-aborts=%d steps=%d\n",
 		s.Forks, s.Pruned, s.FeasQueries, s.Obligations, s.Discharged, s.Inconclusive, s.ConcreteAsserts, s.Merges, s.MergeAborts, s.Steps)
+	fmt.Fprintf(&sb, "  batch-queries=%d batch-time=%.2fs implied-checks=%d pruned-by-intervals=%d interval-crosschecks=%d\n", s.BatchQueries, float64(s.BatchNs)/1e9, s.ImpliedChecks, s.PrunedAbs, s.AbsCrossChecks)
 	fmt.Fprintf(&sb, "  confirm-queries=%d confirm-unknown=%d disagreements=%d unknowns=%d solver-errors=%d wall=%.1fs\n",
 		s.ConfirmQueries, s.ConfirmUnknown, s.Disagreements, s.Unknowns, e.solverErrors, time.Since(e.start).Seconds())
 	for n, d := range e.solverTime {
@@ -62,6 +63,23 @@ func (e *Engine) summary() string {
 	}
 	for _, n := range e.notes {
 		fmt.Fprintf(&sb, "  note: %s\n", n)
+	}
+	if e.profile != nil {
+		type kv struct {
+			k string
+			n int
+		}
+		var l []kv
+		for k, n := range e.profile {
+			l = append(l, kv{k, n})
+		}
+		sort.Slice(l, func(i, j int) bool { return l[i].n > l[j].n })
+		for i, x := range l {
+			if i > 40 {
+				break
+			}
+			fmt.Fprintf(&sb, "  PROF %6d %s\n", x.n, x.k)
+		}
 	}
 	for _, v := range e.violations {
 		fmt.Fprintf(&sb, "  VIOLATION-CANDIDATE %s: %s decisions=%v trace=%v\n", v.Kind, v.Msg, v.Decisions, v.Trace)
@@ -90,9 +108,12 @@ func main() {
 		fs.StringVar(&opts.Solver2, "solver2", opts.Solver2, "confirming solver")
 		fs.IntVar(&opts.MaxViolations, "max-violations", 1, "stop after this many")
 		fs.Int64Var(&opts.MaxPaths, "max-paths", 0, "path limit")
+		fs.BoolVar(&opts.Profile, "profile", false, "histogram of solver-checked obligations")
+		fs.BoolVar(&opts.CheckAbstract, "check-abstract", false, "cross-check interval verdicts against the solver")
 		fs.Parse(os.Args[2:])
 		if *tier == "thorough" {
 			opts.Tier = 1
+			opts.ConfirmEvery = 1
 		}
 		e, err := runHarness(*pkg, *entry, opts)
 		if e != nil && e.stats.Paths > 0 {
